@@ -1,13 +1,22 @@
 (* Proofs/XRTac.v -- tactics for goals about the XR instance (extended reals over R). *)
 From Coq Require Import Reals ZArith List Bool Lra.
 From VF Require Import Base.Num Base.Vec Base.Event.
+Local Open Scope R_scope.
+
+Lemma Rdiv_one (r : R) : r / 1 = r.
+Proof. field. Qed.
+
+Lemma Reqb_1_0 : Reqb 1 0 = false.
+Proof. apply Reqb_false; lra. Qed.
 
 Ltac xr_unfold :=
   cbn [XR xops numT n_nan n_pinf n_ninf n_lit n_ofnat n_add n_sub n_mul n_div n_neg n_abs n_sqrt n_cbrt
        n_ln n_log2 n_exp n_eqb n_ltb n_leb n_isnan n_isinf] in *;
   unfold x_leb, x_ltb, x_eqb, x_isnan, x_isinf, x_add, x_sub, x_mul, x_div, x_neg, x_abs, x_lit,
+         x_log2, x_ln, x_sqrt, x_exp, x_cbrt,
          is0, pos, neg, z0, inf_of_sign in *;
-  cbn [RBase bT b_ofZ b_add b_sub b_mul b_div b_opp b_eqb b_ltb] in *.
+  cbn [RBase bT b_ofZ b_add b_sub b_mul b_div b_opp b_eqb b_ltb b_ln b_sqrt b_exp b_cbrt] in *;
+  rewrite ?Reqb_1_0 in *; cbv beta iota in *.
 
 (* destruct every real comparison in the goal, one at a time *)
 Ltac rb1 :=
@@ -28,5 +37,23 @@ Ltac rbh :=
       let E := fresh "E" in destruct (Rltb a b) eqn:E;
       [apply Rltb_true in E | apply Rltb_false in E]
   end.
+(* pruning variant: discharge linearly contradictory branches as soon as they appear *)
+Ltac prune := try solve [exfalso; lra].
+Ltac rbp := repeat (rb1; prune).
 Ltac rb := repeat rb1.
 Ltac rba := repeat (first [rb1 | rbh]).
+
+(* record 0 < x / y for every quotient (goal or hypotheses) whose numerator and denominator are positive *)
+Ltac add_div_pos1 x y :=
+  lazymatch goal with
+  | _ : 0 < x / y |- _ => fail
+  | _ => let P := fresh "P" in
+         assert (P : 0 < x / y) by (apply Rdiv_lt_0_compat; first [assumption | lra | nra])
+  end.
+Ltac add_div_pos :=
+  repeat match goal with
+  | |- context [?x / ?y] => add_div_pos1 x y
+  | _ : context [?x / ?y] |- _ => add_div_pos1 x y
+  end.
+(* destruct comparisons, learning positivity of quotients on the way *)
+Ltac rbq := repeat (rb1; add_div_pos; prune).
